@@ -157,8 +157,9 @@ type runLog struct {
 // ---- driver --------------------------------------------------------------------------------
 
 type opRun struct {
-	ev    *event
-	force string
+	ev     *event
+	force  string
+	atHook func() // tells the driver that the delayed claimer has reached its hook
 }
 
 var (
@@ -187,6 +188,7 @@ func installHooks() {
 		}
 		r := v.(*opRun)
 		if r.force == "pred" {
+			r.atHook()
 			time.Sleep(hookDelay)
 		}
 		r.ev.Sel = seq.Add(1)
@@ -204,6 +206,7 @@ func installHooks() {
 			if r.force != "sel" {
 				return
 			}
+			r.atHook()
 			if !shift {
 				time.Sleep(hookDelay)
 				return
@@ -558,7 +561,12 @@ func runBubble(t *testing.T, s *sched, lg *runLog, root string) {
 		var orderMu sync.Mutex
 		var order []string
 		for w := 0; w < waves; w++ {
-			start := make(chan struct{})
+			// The delayed claimer of a forced wave starts alone; everybody else is released once it
+			// is parked at its hook (or has returned without reaching it).
+			start, startForced, atHook := make(chan struct{}), make(chan struct{}), make(chan struct{})
+			var atHookOnce sync.Once
+			reached := func() { atHookOnce.Do(func() { close(atHook) }) }
+			hasForced := false
 			var runs []*event
 			mutatorsLeft.Store(0)
 			for i := range s.Ops {
@@ -574,8 +582,15 @@ func runBubble(t *testing.T, s *sched, lg *runLog, root string) {
 				ev := &event{Op: i, Kind: o.Kind}
 				lg.Events[i] = ev
 				runs = append(runs, ev)
+				gate := start
+				if o.Force != "" {
+					gate, hasForced = startForced, true
+				}
 				go func() {
 					defer func() {
+						if o.Force != "" {
+							reached()
+						}
 						if !o.claimer() {
 							mutatorsLeft.Add(-1)
 						}
@@ -584,9 +599,9 @@ func runBubble(t *testing.T, s *sched, lg *runLog, root string) {
 						orderMu.Unlock()
 					}()
 					g := gid()
-					byGID.Store(g, &opRun{ev: ev, force: o.Force})
+					byGID.Store(g, &opRun{ev: ev, force: o.Force, atHook: reached})
 					defer byGID.Delete(g)
-					<-start
+					<-gate
 					ev.NowStart = time.Now().UnixNano()
 					ev.Start = seq.Add(1)
 					d.exec(i, o, ev)
@@ -603,8 +618,12 @@ func runBubble(t *testing.T, s *sched, lg *runLog, root string) {
 					orderMu.Unlock()
 				}()
 			}
-			synctest.Wait() // everybody parked on the start channel
+			synctest.Wait() // everybody parked on a start channel
 			progress.Add(1)
+			if hasForced {
+				close(startForced)
+				<-atHook
+			}
 			close(start)
 			synctest.Wait()
 			time.Sleep(waveGap) // lets the claimer delayed at a hook finish
